@@ -141,6 +141,36 @@ Print Assumptions C20_sprand_post.
 Print Assumptions C20_sprand_count.
 Print Assumptions C20_seeded_first_draw.
 
+(* ---------------------------------------------------------------- what the code does not guarantee (known findings) *)
+(* "the requested number of distinct nonzeros" for EVERY admissible stream of draws is FALSE for the algorithm as
+   coded (finding A-46): ten draws that each repeat a row end one short. The exact guarantee is C20_sprand_count. *)
+Theorem C20_requested_count_refuted : ~ requested_count_stmt.
+Proof. exact requested_count_refuted. Qed.
+
+(* sptenrand(density): the count the code derives differs from floor(size*density) when size*density < 1 (C20-N1,
+   re-read as a density) and when density = 1 (C20-N3, rejected); on the rest of the range they coincide *)
+Theorem C20_density_count_refuted : ~ density_count_stmt.
+Proof. exact density_count_refuted. Qed.
+
+Theorem C20_density_count_partial : forall (total : nat) (p : Z) (q : positive),
+  (Zpos q <= Z.of_nat total * p)%Z -> (0 < p < Zpos q)%Z ->
+  sptenrand_count_impl total p q = Some (sptenrand_count_spec total p q).
+Proof. exact density_count_partial. Qed.
+
+(* the guards of from_aggregator: accepted exactly when the counts agree and every subscript fits the (given or
+   inferred) shape *)
+Theorem C20_aggregator_guard : forall (V : Type) (isz : V -> bool) so N subs (vals : list V) f,
+  (length subs = length vals -> Forall (fun i => inb (agg_shape_of so N subs) i = true) subs ->
+   from_aggregator_chk isz so N subs vals f = Some (from_aggregator isz (agg_shape_of so N subs) subs vals f)) /\
+  (length subs <> length vals \/ Exists (fun i => inb (agg_shape_of so N subs) i = false) subs ->
+   from_aggregator_chk isz so N subs vals f = None).
+Proof. exact (fun V isz so N subs vals f => conj (agg_guard_accept isz so N subs vals f) (agg_guard_reject isz so N subs vals f)). Qed.
+
+Print Assumptions C20_requested_count_refuted.
+Print Assumptions C20_density_count_refuted.
+Print Assumptions C20_density_count_partial.
+Print Assumptions C20_aggregator_guard.
+
 (* ---------------------------------------------------------------- teneye *)
 (* order 2: the entry numerators are 2!*delta — the identity matrix *)
 Theorem C20_teneye_order2 : forall a b : nat, teneye_count [a; b] = if Nat.eqb a b then 2 else 0.
